@@ -2,7 +2,7 @@
 """Entry point of every registered check:  python3 tools/check.py <Cnn> [--tier quick|thorough] [--replay file]"""
 import sys, os, json, argparse, re
 sys.path.insert(0, os.path.dirname(os.path.abspath(__file__)))
-import vlib, hashcheck, aescheck, c12check, padcheck
+import vlib, hashcheck, aescheck, c12check, padcheck, submitcheck
 
 
 # ----------------------------------------------------------------------------- hash family
@@ -34,6 +34,10 @@ def check_hash(pid, tier, replay=None):
     for name, detail in failed:
         chk.violation("Lean obligation no longer checks: %s" % name,
                       {"kind": "obligation", "obligation": name, "detail": detail}, no_input=True)
+    if pid == "C11" and not replay:
+        # T-route: the bookkeeping prefix of every SIMD-family submit (rejections store the error and nothing else; an
+        # accepted submit clears it), regenerated from the source and re-proved for all flags / lengths / context states
+        submitcheck.obligations(chk, tier)
     if pid == "C01" and not replay:
         # T-route: hash_pad of every context-layer file, regenerated from the source and re-proved (all totals, all buffers)
         padcheck.obligations(chk, tier)
@@ -383,6 +387,15 @@ def check_c09(pid, tier, replay=None):
                           {"kind": "input", "family": "rolling/" + r2["impl"], "args": [r2["impl"], str(r2["seed"]), str(nops), str(maxlen)],
                            "monitor": mini[0][:400], "minimized": True},
                           match={"family": "rolling/" + r2["impl"], "monitor": kind})
+        elif r2["diffs"] and r2["diffs"][0].get("line", -1) > 0:
+            # the model IS the definition (C09_run: first position whose window hash matches, else max_len): an operation on
+            # which the implementation's (offset, result, state) differs from it is a failing input, replayed from the seed
+            d0 = r2["diffs"][0]
+            chk.violation("run result differs from the definition in rolling/%s at op %d (%s)" % (r2["impl"], d0["line"], d0["op"][:60]),
+                          {"kind": "input", "family": "rolling/" + r2["impl"], "first_disagreement": d0,
+                           "args": [r2["impl"], str(r2["seed"]), str(nops), str(maxlen)],
+                           "note": "drv_rolling regenerates the op stream from these args; the line is the first op whose result line differs"},
+                          match={"family": "rolling/" + r2["impl"], "monitor": "correspondence"})
         elif r2["diffs"] or r2["exit"] != 0:
             chk.violation("model/implementation correspondence broke for rolling/%s" % r2["impl"],
                           {"kind": "obligation", "obligation": "correspondence rolling/%s" % r2["impl"], "first_disagreement": (r2["diffs"] or [None])[0],
@@ -818,6 +831,8 @@ def check_c15(pid, tier, replay=None):
     if not replay:
         # T-route: hash_pad (where the length field is computed) of every context-layer file, for ALL totals < 2^64
         padcheck.obligations(chk, tier)
+        # T-route: `total_length` reset on FIRST and advanced by len modulo 2^64 in every SIMD-family submit
+        submitcheck.obligations(chk, tier)
     if replay:
         rp = json.load(open(replay))
         if len(rp.get("args", [])) >= 6:      # a drv_hash history (jumped totals)
@@ -903,6 +918,16 @@ def check_c17(pid, tier, replay=None):
         "sim_ok", "closed_world_ok", "return_table_consistent", "return_values_ok", "fast_path_ok",
         "C17_generic_generated", "C17_generic_generated_live")]
     lean_failed += vlib.lean_obligations(chk, "IsalVerif.GenProps.SelfTestGeneric", g_thms + g_gen, extra_targets=["IsalVerif.Props.C17Generic"])
+    if not replay:
+        # "no thread's call returns success or starts cryptographic work before the self tests have finished" is about the
+        # entry points: each must reach its work only through `if (isal_self_tests()) return ERR_SELF_TEST` itself, not
+        # through a private cache of the verdict (seed C17-r3).  That is C13's generated obligation over the FIPS wrapper
+        # table, re-checked here against the same tree.
+        wrap_generate()
+        gate = ["IsalVerif.GenProps.Wrappers.gate_ok", "IsalVerif.GenProps.Wrappers.shape_fips_ok",
+                "IsalVerif.GenProps.Wrappers.opaque_fips_ok", "IsalVerif.Props.C13.approved_tests_first"]
+        for name, detail in vlib.lean_obligations(chk, "IsalVerif.GenProps.WrappersC13", gate):
+            lean_failed.append(("entry-point gate (wrapper table): " + name, detail))
     drv = vlib.harness_bin("drv_fips", "fips", libs=(), cflags=C17_WRAPS)
     drvg = vlib.harness_bin("drv_fips", "fipsnoarch", libs=(),
                             cflags=("-DVERIF_GENERIC_GATE", "-Wl,--wrap=_aes_self_tests", "-Wl,--wrap=_sha_self_tests",
@@ -1043,6 +1068,10 @@ def check_wrap(pid, tier, replay=None):
         gen_selftest.main(["--quiet"])
         targets.append("IsalVerif.GenProps.SelfTestRet")
     lean_failed = vlib.lean_obligations(chk, W["module"], thms, extra_targets=targets)
+    if pid == "C16" and not replay:
+        # the flag / state validation of the hash submits lives in the family callee: T-route over its bookkeeping prefix
+        # (a refused submit stores the error code and nothing else), regenerated and re-proved
+        submitcheck.obligations(chk, tier)
     if pid == "C13" and not lean_failed:
         gate = ["IsalVerif.GenProps.SelfTest.sim_ok", "IsalVerif.GenProps.SelfTest.closed_world_ok",
                 "IsalVerif.GenProps.SelfTest.return_values_ok", "IsalVerif.GenProps.SelfTest.C17_generated"]
@@ -1397,6 +1426,8 @@ def main():
     try:
         if a.replay and json.load(open(a.replay)).get("kind") == "hashpad":
             return padcheck.replay(json.load(open(a.replay)))
+        if a.replay and json.load(open(a.replay)).get("kind") == "submit-prefix":
+            return submitcheck.replay(json.load(open(a.replay)))
         return CHECKS[a.pid](a.pid, a.tier, a.replay)
     except Exception as e:
         # A step of the machinery itself failed (a variant of the library no longer builds, a translator cannot read the
